@@ -1,6 +1,7 @@
 package main
 
 import (
+	"database/sql"
 	"flag"
 	"fmt"
 	"math/rand"
@@ -12,6 +13,7 @@ import (
 
 	f_log "github.com/transparency-dev/formats/log"
 	"github.com/transparency-dev/merkle/rfc6962"
+	"github.com/transparency-dev/witness/internal/persistence/inmemory"
 	"github.com/transparency-dev/witness/internal/witness"
 	"golang.org/x/mod/sumdb/note"
 	"google.golang.org/grpc/codes"
@@ -73,6 +75,8 @@ func crashKind(kind string) (int, uint64, uint64) {
 		return 5, 5, 5
 	case "growthAfterRefusal": // the serving process has refused an update for this log before the one under test
 		return 3, 3, 7
+	case "legacyStore": // the store was written in the released on-disk format (raw SQL), not by the code under test
+		return 3, 3, 7
 	}
 	return 3, 3, 7
 }
@@ -85,6 +89,50 @@ func scenarioCrashChild(t *traceWriter, rng *rand.Rand) {
 	setup, old, size := crashKind(baseKind)
 	switch *flagMode {
 	case "setup":
+		if baseKind == "legacyStore" {
+			// cosigned checkpoints made by a witness on a throw-away in-memory store, then written to the database file
+			// the way the released code writes them: table chkpts(logID BLOB PRIMARY KEY, chkpt BLOB, range BLOB), the
+			// log ID bound as a string, the checkpoint as bytes
+			known := map[string]witness.LogInfo{}
+			for _, o := range []string{c.origin, c.origB} {
+				known[f_log.ID(o)] = witness.LogInfo{SigV: c.key.verif, Origin: o, Hasher: rfc6962.DefaultHasher}
+			}
+			var signers []note.Signer
+			for _, k := range c.wk {
+				signers = append(signers, k.signer)
+			}
+			mw, err := witness.New(witness.Opts{Persistence: inmemory.NewPersistence(), Signers: signers, KnownLogs: known})
+			if err != nil {
+				panic(err)
+			}
+			a, err := mw.Update(bgctx, id, 0, signNote(cpText(c.origin, uint64(setup), c.tr.root(uint64(setup))), c.key.signer), nil)
+			if err != nil {
+				panic(err)
+			}
+			b, err := mw.Update(bgctx, idB, 0, signNote(cpText(c.origB, 2, c.tr.root(2)), c.key.signer), nil)
+			if err != nil {
+				panic(err)
+			}
+			db, err := sql.Open("sqlite3", *flagDB)
+			if err != nil {
+				panic(err)
+			}
+			if _, err := db.Exec("CREATE TABLE IF NOT EXISTS chkpts (\n\t\tlogID BLOB PRIMARY KEY,\n\t\tchkpt BLOB,\n\t\trange BLOB\n\t\t)"); err != nil {
+				panic(err)
+			}
+			for _, kv := range []struct {
+				id string
+				cp []byte
+			}{{id, a}, {idB, b}} {
+				if _, err := db.Exec("INSERT OR REPLACE INTO chkpts (logID, chkpt) VALUES (?, ?)", kv.id, kv.cp); err != nil {
+					panic(err)
+				}
+			}
+			db.Close()
+			fmt.Printf("LEGACY %s\n", hx(a))
+			fmt.Println("SETUP-DONE")
+			return
+		}
 		w := c.witness(*flagDB)
 		// the other log always holds something
 		if _, err := w.Update(bgctx, idB, 0, signNote(cpText(c.origB, 2, c.tr.root(2)), c.key.signer), nil); err != nil {
@@ -176,7 +224,7 @@ func scenarioCrash(t *traceWriter, rng *rand.Rand) {
 	scratch := scratchDir()
 	defer os.RemoveAll(scratch)
 	n := 0
-	for _, kind := range []string{"firstUse", "growth", "refresh", "growthAfterRefusal"} {
+	for _, kind := range []string{"firstUse", "growth", "refresh", "growthAfterRefusal", "legacyStore"} {
 		// dry run: how many driver events does this update have
 		db := filepath.Join(scratch, fmt.Sprintf("dry-%s.db", kind))
 		runChild(db, "setup", kind, 0)
@@ -192,7 +240,11 @@ func scenarioCrash(t *traceWriter, rng *rand.Rand) {
 		for k := 1; k <= total+1; k++ {
 			n++
 			db := filepath.Join(scratch, fmt.Sprintf("c%d.db", n))
-			runChild(db, "setup", kind, 0)
+			setupOut := runChild(db, "setup", kind, 0)
+			legacy := "-"
+			if lg := grab(setupOut, "LEGACY "); len(lg) == 1 {
+				legacy = lg[0]
+			}
 			before := runChild(db, "read", kind, 0)
 			run := runChild(db, "run", kind, k)
 			after := runChild(db, "read", kind, 0)
@@ -204,8 +256,8 @@ func scenarioCrash(t *traceWriter, rng *rand.Rand) {
 			if len(grab(run, "EVENTS ")) == 1 {
 				killed = 0
 			}
-			t.line("CR kind=%s killat=%d total=%d ops=%s old=%d acked=%d killed=%d log=%s submitted=%s before=%s => after=%s",
-				kind, k, total, ops, old, acked, killed, hx([]byte(id)), hx([]byte(submitted)),
+			t.line("CR kind=%s killat=%d total=%d ops=%s old=%d acked=%d killed=%d log=%s submitted=%s legacy=%s before=%s => after=%s",
+				kind, k, total, ops, old, acked, killed, hx([]byte(id)), hx([]byte(submitted)), legacy,
 				strings.ReplaceAll(strings.Join(append(grab(before, "STATE "), grab(before, "LOGS ")...), ";"), " ", ":"),
 				strings.ReplaceAll(strings.Join(append(grab(after, "STATE "), grab(after, "LOGS ")...), ";"), " ", ":"))
 			os.Remove(db)
